@@ -59,11 +59,16 @@ func Main(args []string) int {
 				return 2
 			}
 			pid++
+			fork := 0
 			for i, st := range steps {
 				ev := m.Exec(st)
 				ev.Prog = pid
+				ev.Fork = fork
 				ev.Idx = i + 1
 				w.Emit(ev)
+				if st.Op == "Save" || st.Op == "Restore" {
+					fork++
+				}
 			}
 			res.Cases++
 		}
